@@ -595,6 +595,39 @@ read_tun(int tun_fd, char *buf, size_t len)
 }
 #endif
 
+/* Strict dotted-quad check: exactly four decimal fields 0..255 and nothing
+ * else. inet_addr() also accepts forms like "10.2" and ignores anything after
+ * white space, which must never end up in a command line. */
+static int
+is_dotted_quad(const char *s)
+{
+	int fields = 0;
+
+	if (s == NULL)
+		return 0;
+
+	while (1) {
+		int digits = 0;
+		int value = 0;
+
+		while (*s >= '0' && *s <= '9') {
+			value = value * 10 + (*s - '0');
+			digits++;
+			s++;
+			if (digits > 3 || value > 255)
+				return 0;
+		}
+		if (digits == 0)
+			return 0;
+		fields++;
+		if (*s == '\0')
+			return fields == 4;
+		if (*s != '.' || fields == 4)
+			return 0;
+		s++;
+	}
+}
+
 int
 tun_setip(const char *ip, const char *other_ip, int netbits)
 {
@@ -630,8 +663,12 @@ tun_setip(const char *ip, const char *other_ip, int netbits)
 		netmask <<= (32 - netbits);
 	net.s_addr = htonl(netmask);
 
-	if (inet_addr(ip) == INADDR_NONE) {
+	if (!is_dotted_quad(ip) || inet_addr(ip) == INADDR_NONE) {
 		fprintf(stderr, "Invalid IP: %s!\n", ip);
+		return 1;
+	}
+	if (!is_dotted_quad(other_ip)) {
+		fprintf(stderr, "Invalid IP: %s!\n", other_ip);
 		return 1;
 	}
 #ifndef WINDOWS32
